@@ -72,6 +72,16 @@ def _events():
     ev("parse(fallback to 2 default languages)", lambda a: P("xyzzy plugh", languages=["en"], settings=a["s"]), {"s": {"DEFAULT_LANGUAGES": ["fr", "en"]}})
     ev("persistent tl parser, given order, 2 defaults", lambda a: _pp("tl", languages=["tl"], use_given_order=True, settings=a["s"]).get_date_data("01/02/2020 10h30"),
        {"s": {"DEFAULT_LANGUAGES": ["fr", "en"]}})
+    ev("time-only TIMEZONE +0500", lambda a: P("10:00", languages=["en"], settings=a["s"]),
+       {"s": {"TIMEZONE": "+0500", "RELATIVE_BASE": B, "PREFER_DATES_FROM": "past"}}, core=True)
+    ev("time-only TIMEZONE -0500", lambda a: P("10:00", languages=["en"], settings=a["s"]),
+       {"s": {"TIMEZONE": "-0500", "RELATIVE_BASE": B, "PREFER_DATES_FROM": "past"}}, core=True)
+    ev("persistent fr parser, explicit MDY", lambda a: _pp("frmdy", languages=["fr"], settings=a["s"]).get_date_data("01/02/2020"),
+       {"s": {"DATE_ORDER": "MDY"}}, core=True)
+    ev("parse(settings spell out a default)", lambda a: P("01/02/2020", languages=["fr"], settings=a["s"]), {"s": {"PREFER_LOCALE_DATE_ORDER": True}}, core=True)
+    ev("parse(settings spell out another default)", lambda a: P("01/02/2020", languages=["en"], settings=a["s"]), {"s": {"DATE_ORDER": "MDY"}})
+    ev("search(de+en, digits only)", lambda a: search_dates("Final: 01.02.2020, 03.04.2021", languages=a["l"], add_detected_language=True), {"l": ["de", "en"]})
+    ev("search(en+de, digits only)", lambda a: search_dates("Final: 01.02.2020, 03.04.2021", languages=a["l"], add_detected_language=True), {"l": ["en", "de"]})
     ev("parse(parsers absolute only)", lambda a: P("yesterday", languages=["en"], settings=a["s"]), {"s": {"PARSERS": ["absolute-time"]}})
     ev("parse(en, cache limit 1)", lambda a: P("02/03/2015", languages=["en"], settings=a["s"]), {"s": {"CACHE_SIZE_LIMIT": 1}}, core=True)
     ev("parse(fr, cache limit 1)", lambda a: P("2 mars 2015", languages=["fr"], settings=a["s"]), {"s": {"CACHE_SIZE_LIMIT": 1}}, core=True)
